@@ -68,13 +68,47 @@ Proof.
   cbn [fst snd join_comma]. rewrite !json_str_valid by assumption. apply IH, Hl.
 Qed.
 
+Lemma str_eqb_refl a : str_eqb a a = true.
+Proof. apply str_eqb_eq. reflexivity. Qed.
+
+Lemma set_vals_other (k k' : str) x acc vs : str_eqb k' k = false ->
+  set_vals ((k, x) :: acc) k' vs = (k, x) :: set_vals acc k' vs.
+Proof. intros E. unfold set_vals. destruct vs; cbn [del_key]; rewrite E; reflexivity. Qed.
+
+Lemma set_vals_same (k : str) x acc vs : set_vals ((k, x) :: acc) k vs = set_vals acc k vs.
+Proof. unfold set_vals. destruct vs; cbn [del_key]; rewrite str_eqb_refl; reflexivity. Qed.
+
+(* a header present at the start is replaced by the handler's own value for that key *)
+Lemma fold_front_key (k : str) x : forall (l : list (str * list str)) acc,
+  existsb (fun kv => str_eqb (fst kv) k) l = true ->
+  fold_left (fun h kv => set_vals h (fst kv) (snd kv)) l ((k, x) :: acc)
+  = fold_left (fun h kv => set_vals h (fst kv) (snd kv)) l acc.
+Proof.
+  induction l as [|[k' vs] l IH]; intros acc H; cbn [existsb fold_left fst snd] in *; [discriminate|].
+  destruct (str_eqb k' k) eqn:E.
+  - apply str_eqb_eq in E. subst k'. rewrite set_vals_same. reflexivity.
+  - cbn [orb] in H. rewrite set_vals_other by exact E. apply IH, H.
+Qed.
+
+Lemma child_headers_keys o :
+  forallb (fun kv => utf8_valid (fst kv) && single (snd kv) && strs_valid (snd kv)) (o_headers o) = true ->
+  existsb (fun kv => str_eqb (fst kv) ctype) (child_headers o) = existsb (fun kv => str_eqb (fst kv) ctype) (o_headers o).
+Proof.
+  unfold child_headers. induction (o_headers o) as [|[k vs] l IH]; cbn [map existsb forallb fst snd]; [reflexivity|].
+  intros H. apply andb_true_iff in H as [Hkv Hl]. apply andb_true_iff in Hkv as [Hkv _]. apply andb_true_iff in Hkv as [Hk _].
+  rewrite json_str_valid by assumption. rewrite IH by assumption. reflexivity.
+Qed.
+
 Lemma response_roundtrip o : resp_representable o = true -> child_wire o = inproc_wire o.
 Proof.
   unfold resp_representable. intros H.
   repeat (apply andb_true_iff in H as [H ?]).
-  apply negb_true_iff in H.
-  unfold child_wire, inproc_wire, child_headers. rewrite H.
-  rewrite json_str_valid by assumption. rewrite fold_single by assumption. reflexivity.
+  unfold child_wire, child_wire_f, inproc_wire. cbn [andb].
+  rewrite child_headers_keys by assumption. unfold child_headers.
+  rewrite json_str_valid by assumption. rewrite fold_single by assumption.
+  destruct (o_json o); cbn [andb negb]; [|reflexivity].
+  destruct (existsb (fun kv => str_eqb (fst kv) ctype) (o_headers o)) eqn:E; cbn [negb]; [|reflexivity].
+  rewrite fold_front_key by exact E. reflexivity.
 Qed.
 
 (* every kind of caller (anonymous, password, accepted token, presented-but-rejected token) is reported alike *)
@@ -88,13 +122,18 @@ Definition o_binary : outcome := {| o_status := 200; o_headers := []; o_body := 
 Definition o_json_ct : outcome := {| o_status := 200; o_headers := []; o_body := [123;125]; o_json := true |}.
 Definition q_intpart : view :=
   {| v_method := [71;69;84]; v_headers := []; v_params := []; v_parts := [([105;100], UInt 42)]; v_body := [];
-     v_user := []; v_admin := false; v_auth := false; v_bearer := false; v_perms := []; v_authn := 0 |}.
+     v_user := []; v_admin := false; v_auth := false; v_bearer := false; v_perms := []; v_authn := 0; v_accjson := false; v_acctext := false; v_wjson := false; v_wtext := false |}.
 
 Lemma multi_header_differs : child_wire o_multi <> inproc_wire o_multi.
 Proof. vm_compute. discriminate. Qed.
 Lemma binary_body_differs : child_wire o_binary <> inproc_wire o_binary.
 Proof. vm_compute. discriminate. Qed.
-Lemma json_content_type_differs : child_wire o_json_ct <> inproc_wire o_json_ct.
+Lemma json_content_type_differs : child_wire_f false o_json_ct <> inproc_wire o_json_ct.
 Proof. vm_compute. discriminate. Qed.
 Lemma int_part_differs : child_view q_intpart <> inproc_view q_intpart.
 Proof. vm_compute. discriminate. Qed.
+
+(* the router's reading of Accept and the literal "application/json" test are different rules *)
+Lemma accept_rules_differ :
+  exists vals, fst (router_accepts vals false false) = true /\ literal_json vals = false.
+Proof. exists [[65;112;112;108;105;99;97;116;105;111;110;47;74;83;79;78]]. vm_compute. auto. Qed.
